@@ -2,35 +2,55 @@
    casbin/synced_enforcer.py, and of the signature table of the plain Enforcer API
    (casbin/{core,internal,management}_enforcer.py, enforcer.py).  Syntax only: the generated file
    coq/gen/SyncedGen.v imports this, Synced.v gives the meaning (hand tables, wrapper_ok, machine). *)
-From Coq Require Import List String Bool.
+From Coq Require Import List Bool Ascii.
 Import ListNotations.
+
+(* Python identifiers and source texts.  NOT Coq's [text]: its extraction would define an OCaml type named
+   `text` that shadows the built-in one inside the generic oracle driver.  Literals "..." are available in
+   [text_scope] through a String Notation. *)
+Inductive text := TNil | TChr (a : ascii) (r : text).
+Fixpoint text_of_bytes (l : list Byte.byte) : text :=
+  match l with [] => TNil | b :: r => TChr (ascii_of_byte b) (text_of_bytes r) end.
+Fixpoint bytes_of_text (t : text) : list Byte.byte :=
+  match t with TNil => [] | TChr a r => byte_of_ascii a :: bytes_of_text r end.
+Declare Scope text_scope.
+Delimit Scope text_scope with text.
+Bind Scope text_scope with text.
+String Notation text text_of_bytes bytes_of_text : text_scope.
+
+Fixpoint text_eqb (a b : text) : bool :=
+  match a, b with
+  | TNil, TNil => true
+  | TChr x r, TChr y s => Ascii.eqb x y && text_eqb r s
+  | _, _ => false
+  end.
 
 (* which lock a wrapper holds:  `with self._rl:`  |  `with self._wl:`  |  none *)
 Inductive lockmode := LR | LW | LNone.
 
 (* how ONE actual argument of the delegating call `self._e.m(...)` is written *)
 Inductive argx :=
-| APos (n : string)            (* a name passed positionally:      n      *)
-| AStar (n : string)           (* a starred name:                 *n      *)
-| AKw (k n : string)           (* a keyword argument:            k = n    *)
-| AStarStar (n : string)       (*                                **n      *)
-| AOther (src : string).       (* anything else: constant, expression, attribute, call ... (source text) *)
+| APos (n : text)            (* a name passed positionally:      n      *)
+| AStar (n : text)           (* a starred name:                 *n      *)
+| AKw (k n : text)           (* a keyword argument:            k = n    *)
+| AStarStar (n : text)       (*                                **n      *)
+| AOther (src : text).       (* anything else: constant, expression, attribute, call ... (source text) *)
 
 (* a Python signature without `self` *)
 Record params := {
-  p_pos : list string;                 (* positional parameters, in order *)
-  p_defaults : list string;            (* source text of the defaults of the LAST |p_defaults| of them *)
-  p_var : option string;               (* *args *)
-  p_kwonly : list (string * string);   (* keyword-only parameters with the text of their default ("" = required) *)
-  p_kwvar : option string              (* **kwargs *)
+  p_pos : list text;                 (* positional parameters, in order *)
+  p_defaults : list text;            (* source text of the defaults of the LAST |p_defaults| of them *)
+  p_var : option text;               (* *args *)
+  p_kwonly : list (text * text);   (* keyword-only parameters with the text of their default ("" = required) *)
+  p_kwvar : option text              (* **kwargs *)
 }.
 
 (* one method of class SyncedEnforcer (every method except __init__) *)
 Record wrapper := {
-  w_name : string;
+  w_name : text;
   w_line : nat;
   w_params : params;
-  w_target : option string;      (* Some m  <->  the body (docstrings stripped) is exactly one of
+  w_target : option text;      (* Some m  <->  the body (docstrings stripped) is exactly one of
                                       [with self._rl|_wl:]  [return] self._e.m(ARGS)
                                       [with self._rl|_wl:]  v = self._e.m(ARGS) ; return v      (return inside or after the with)
                                     where ARGS never mention `self` *)
@@ -38,20 +58,20 @@ Record wrapper := {
   w_args : list argx;            (* for a delegation: ARGS *)
   w_returns : bool;              (* for a delegation: the value of the call is returned *)
   (* for every other body ("inline"), what a syntactic walk found: *)
-  w_inner_r : list string;       (* attributes X of `self._e.X` used under the read lock  *)
-  w_inner_w : list string;       (*   ... under the write lock *)
-  w_inner_none : list string;    (*   ... under no lock ("<bare>" = self._e used as a value) *)
-  w_self_locked : list string;   (* self.m(...) calls (m a method of the class) made while a lock is held:
+  w_inner_r : list text;       (* attributes X of `self._e.X` used under the read lock  *)
+  w_inner_w : list text;       (*   ... under the write lock *)
+  w_inner_none : list text;    (*   ... under no lock ("<bare>" = self._e used as a value) *)
+  w_self_locked : list text;   (* self.m(...) calls (m a method of the class) made while a lock is held:
                                     the lock is not re-entrant, so such a call can never return *)
-  w_escaped : list string        (* self.m(...) calls whose RESULT is dereferenced, stored or passed on outside a lock:
+  w_escaped : list text        (* self.m(...) calls whose RESULT is dereferenced, stored or passed on outside a lock:
                                     internal state obtained under the lock and used after its release *)
 }.
 
 (* one public method of the plain Enforcer (most derived definition along
    Enforcer -> ManagementEnforcer -> InternalEnforcer -> CoreEnforcer) *)
 Record apisig := {
-  a_name : string;
-  a_class : string;
+  a_name : text;
+  a_class : text;
   a_params : params;
   a_returns : bool;              (* some `return <expr>` with <expr> other than None occurs in the body *)
   a_static : bool
